@@ -138,6 +138,7 @@ pub fn serve(cases_path: &str, out_path: &str) {
                 do_parse_with(script, &bytes, true)
             }
             Some("load") => crate::loadrun::do_load(&unhex(it.next().unwrap_or("-"))),
+            Some("bld") => crate::bldrun::do_bld(line.strip_prefix("bld ").unwrap_or("")),
             Some("feed") => {
                 let v: Vec<&str> = it.collect();
                 crate::loadrun::do_feed(&v)
